@@ -357,3 +357,21 @@ def c06_theorems(u, prop='C06'):
     for lm in lemmas:
         u.add_root(lm.verus_text(prop))
     return lemmas
+
+
+def det4_shape_lemma():
+    import lemma as L
+    Pm = SM.params('m', 4)
+    return L.Lemma('lemma_det4_shape', Pm.flat(), [], [det4_code_shape(Pm).eq(Pm.det())],
+                   doc='the 24 signed products written in mat.rs equal the cofactor (Leibniz) expansion')
+
+
+def add_determinant_any(u, ms):
+    """determinant for any size (4x4 through the shape-bridge lemma, which the unit must add at root)"""
+    if ms.n < 4:
+        add_determinant(u, ms)
+        return
+    A = SM.of(ms, 'self')
+    u.take(ms.path, 'impl<T>Mat4<T>', 'determinant', C(
+        ensures=['res.v@ == ' + X.verus(A.det())],
+        prologue='proof { crate::lemma_det4_shape(%s); }' % lemma_args(A)))
